@@ -50,6 +50,8 @@ COLLECTORS = [["col0", 1], ["col1", 2], ["col2", 1]]
 def gen_values(rng):
     r = rng.random()
     n = rng.randint(1, 4)
+    if r < 0.04:
+        return {"kind": "lookupgen", "v": [[rng.randint(0, 3), 1], [2, 3]]}
     if r < 0.15:
         return {"kind": "scalar", "v": rng.randint(-3, 9)}
     if r < 0.25:
@@ -70,6 +72,8 @@ def decode_values(spec, oneshot=True):
         return iter(list(v)) if k == "iter" else (x for x in list(v))
     if k in ("scalar", "str"):
         return v
+    if k == "lookupgen":
+        return W.StableLookup([list(r_) for r_ in v])       # a single value that happens to be a bundled generator object
     if k == "list":
         return list(v)
     if k == "tuple":
@@ -81,7 +85,7 @@ def decode_values(spec, oneshot=True):
 
 def as_list(spec):
     val = decode_values(spec)
-    if isinstance(val, (str, int)):
+    if isinstance(val, (str, int, W.StableLookup)):
         return [val]
     return list(val)
 
